@@ -20,7 +20,9 @@ from pathlib import Path
 
 def _err(msg: str):
     import extract
-    return extract.ExtractError("hash facts: " + msg)
+    # extract.py may be running as __main__: raise *its* ExtractError so that its handler sees it
+    cls = getattr(sys.modules.get("__main__"), "ExtractError", None) or extract.ExtractError
+    return cls("hash facts: " + msg)
 
 
 def _sha(s: str) -> str:
@@ -152,9 +154,9 @@ def hash_facts() -> list[str]:
         mt = assigns.get(a1, a1)
         if mt != "stat.st_mtime":
             raise _err(f"_get_state keys the memo with {mt!r}, not stat.st_mtime")
-    except extract.ExtractError:
-        raise
     except Exception as e:
+        if type(e).__name__ == "ExtractError":
+            raise
         raise _err(f"probe crashed: {type(e).__name__}: {e}") from None
 
     strs = lambda xs: extract.lean_list(xs, extract.lean_str)  # noqa: E731
